@@ -20,22 +20,37 @@ namespace MosVerif.C18
 section startup
 open MosVerif.Startup
 
-/-- ★ A start-up failure is orderly — for EVERY configuration and EVERY position of the first failing item
-    (listener, metrics endpoint, upstream, domain set, rule or cache): `run` returns an error, nothing panics,
-    no nil closer is ever called, the items behind the failing one are never touched, and the deferred
-    `close` releases everything that had been started: afterwards no item owns a socket, every started upstream
-    and every started listener 0..i−1 has been closed exactly once, in the order of `closeImpl`. -/
+/-- ★ A start-up failure is orderly — for EVERY staged configuration and EVERY position of the first failing
+    item (metrics endpoint, upstream, domain set, rule, memory cache, redis backend, ip marker, listener): `run`
+    returns an error, nothing panics, no nil closer is ever called, the items behind the failing one are never
+    touched, and EVERY stage that had been started is released: afterwards no item owns a socket, a connection
+    or goroutines.  The backends that `initCache` had started when its redis or ip-marker stage fails are closed
+    by its own error path (`c.Close()`, `r.cache` is still nil); everything else by the deferred `close`, in the
+    order of `closeImpl`: context, limiter, upstreams, the cache that was assigned, listeners 0..i−1. -/
 theorem startup_failure_clean (pre post : List Item) (it : Item)
-    (hpre : ∀ x ∈ pre, x.ok = true) (hit : it.ok = false) :
+    (hpre : ∀ x ∈ pre, x.ok = true) (hit : it.ok = false) (hst : staged (pre ++ it :: post) = true) :
     let res := run (pre ++ it :: post)
     res.err = true ∧ res.w.panicked = false ∧ Act.nilCall ∉ res.w.acts ∧
     res.w.live = [] ∧
     res.attempted = List.range (pre.length + 1) ∧
     res.r.closeDone = true ∧
-    res.w.acts = [.cancel, .limiterClose] ++ (upstreamIds 0 pre).map .upClose
-                  ++ (cacheId 0 pre none).toList.map .cacheClose ++ (listenerIds 0 pre).map .srvClose := by
-  simp only [run_failure pre post it hpre hit, live_after_close]
-  simp [afterPrefix, closeImpl_eq]
+    res.w.acts =
+      (if releasesLocal it.kind then (afterPrefix pre).1.cacheLocal.map .cacheClose else []) ++
+      [.cancel, .limiterClose] ++ (upstreamIds 0 pre).map .upClose
+        ++ ((afterPrefix pre).1.cache.getD []).map .cacheClose ++ (listenerIds 0 pre).map .srvClose := by
+  have hlive := live_after_fail pre it (staged_local pre post it hst)
+  simp only [run_failure pre post it hpre hit, hlive]
+  by_cases hrel : releasesLocal it.kind = true
+  · have hfc : failState pre it =
+        ({ (afterPrefix pre).1 with cacheLocal := [] },
+          closeBackends (afterPrefix pre).1.cacheLocal (afterPrefix pre).2) := by
+      unfold failState
+      cases hk : it.kind <;> simp [releasesLocal, hk] at hrel <;> simp [failCleanup, hk]
+    simp [hfc, hrel, afterPrefix, closeImpl_eq, closeBackends_eq]
+  · have hfc : failState pre it = afterPrefix pre := by
+      unfold failState
+      cases hk : it.kind <;> simp [releasesLocal, hk] at hrel <;> simp [failCleanup, hk]
+    simp [hfc, hrel, afterPrefix, closeImpl_eq]
 
 /-- the hypotheses of `startup_failure_clean` are satisfiable, and its conclusion is about real work:
     two listeners and a quic upstream are started, the third listener fails, all three are closed. -/
@@ -44,6 +59,20 @@ example :
           ⟨.server, true, true⟩]).w.acts
       = [.cancel, .limiterClose, .upClose 0, .srvClose 1, .srvClose 2] := by decide
 
+/-- the cache stage: the memory cache is running when the redis backend cannot be reached — `initCache`'s own
+    error path closes it (`r.cache` was never assigned, `closeImpl` alone would not: second example);
+    and a listener that fails later finds the cache assigned, `closeImpl` closes it. -/
+example :
+    (run [⟨.upstream, true, false⟩, ⟨.memCache, true, true⟩, ⟨.redisCache, false, true⟩, ⟨.cacheDone, true, false⟩,
+          ⟨.server, true, true⟩]).w
+      = { live := [], acts := [.cacheClose 1, .cancel, .limiterClose, .upClose 0], panicked := false } := by
+  decide
+example : (closeImpl ⟨[], [1], none, [], false⟩ { live := [1] }).live = [1] := by decide
+example :
+    (run [⟨.memCache, true, true⟩, ⟨.cacheDone, true, false⟩, ⟨.server, true, true⟩, ⟨.server, false, true⟩]).w
+      = { live := [], acts := [.cancel, .limiterClose, .cacheClose 0, .srvClose 2], panicked := false } := by
+  decide
+
 /-- every configuration either starts completely or has a first failing item (so the theorem above and
     `startup_ok` below cover every configuration). -/
 theorem startup_cases (cfg : List Item) :
@@ -51,12 +80,18 @@ theorem startup_cases (cfg : List Item) :
     ∃ pre it post, cfg = pre ++ it :: post ∧ (∀ x ∈ pre, x.ok = true) ∧ it.ok = false :=
   split_first_fail cfg
 
+/-- every configuration the code can run is staged: the sub-stages of `initCache` (memory cache first) are
+    followed by the assignment `r.cache = cache` before anything else is started. -/
+example : staged [⟨.metrics, true, true⟩, ⟨.upstream, true, false⟩, ⟨.memCache, true, true⟩,
+    ⟨.redisCache, false, true⟩, ⟨.ipMarker, true, false⟩, ⟨.cacheDone, true, false⟩, ⟨.server, true, true⟩] = true := by
+  decide
+
 /-- a configuration whose items all initialise: `run` returns the router, nothing has been closed, every
     closer that was registered is non-nil. -/
 theorem startup_ok (cfg : List Item) (h : ∀ x ∈ cfg, x.ok = true) :
     let res := run cfg
     res.err = false ∧ res.w.panicked = false ∧ res.w.acts = [] ∧ res.r.closeDone = false ∧
-    res.w.live = sockIds 0 cfg ∧ (∀ c ∈ res.r.closers, c ≠ none) := by
+    res.w.live = resIds 0 cfg ∧ (∀ c ∈ res.r.closers, c ≠ none) := by
   simp only [run_success cfg h]
   simp [afterPrefix]
 
@@ -66,23 +101,24 @@ theorem router_close_idempotent (r : Router) (w : World) :
   by_cases h : r.closeDone = true <;> simp [close, h]
 
 /-- ★ order of `closeImpl` — for every router whose closers are all non-nil: cancel the context, close the
-    limiter, every upstream, the cache (if any), then the listeners in the order they were started; nothing
-    panics and nothing that was registered keeps its socket. -/
-theorem close_order (ups : List Nat) (c : Option Nat) (ls : List Nat) (w : World) :
-    closeImpl ⟨ups, c, ls.map some, false⟩ w =
-      { live := (w.live.filter (fun i => !ups.contains i)).filter (fun i => !ls.contains i)
-        acts := w.acts ++ [.cancel, .limiterClose] ++ ups.map .upClose ++ c.toList.map .cacheClose
+    limiter, every upstream, the backends of the cache (if assigned), then the listeners in the order they were
+    started; nothing panics and nothing that was registered keeps its resource. -/
+theorem close_order (ups loc : List Nat) (c : Option (List Nat)) (ls : List Nat) (w : World) :
+    closeImpl ⟨ups, loc, c, ls.map some, false⟩ w =
+      { live := ((w.live.filter (fun i => !ups.contains i)).filter (fun i => !(c.getD []).contains i)).filter
+                  (fun i => !ls.contains i)
+        acts := w.acts ++ [.cancel, .limiterClose] ++ ups.map .upClose ++ (c.getD []).map .cacheClose
                   ++ ls.map .srvClose
         panicked := w.panicked } :=
-  closeImpl_eq ups c ls false w
+  closeImpl_eq ups loc c ls false w
 
-/-- ★ shutdown of a started router: after `close` (any number ≥ 1 of times) nothing owns a socket and there
-    was no panic — for every configuration. -/
-theorem shutdown_clean (cfg : List Item) (h : ∀ x ∈ cfg, x.ok = true) (n : Nat) :
+/-- ★ shutdown of a started router: after `close` (any number ≥ 1 of times) nothing owns a resource and there
+    was no panic — for every staged configuration. -/
+theorem shutdown_clean (cfg : List Item) (h : ∀ x ∈ cfg, x.ok = true) (hst : staged cfg = true) (n : Nat) :
     let res := runThenClose cfg (n + 1)
     res.err = false ∧ res.w.panicked = false ∧ res.w.live = [] ∧ Act.nilCall ∉ res.w.acts ∧
     res.w = (runThenClose cfg 1).w := by
-  have hl := live_after_close cfg
+  have hl := live_after_close cfg hst
   simp only [runThenClose, run_success cfg h, closeN, close, afterPrefix] at hl ⊢
   simp only [Bool.false_eq_true, if_false]
   rw [closeN_closed n _ _ rfl]
@@ -91,15 +127,15 @@ theorem shutdown_clean (cfg : List Item) (h : ∀ x ∈ cfg, x.ok = true) (n : N
 
 /-- the nil-closer panic is really in the model: had `run` registered the nil closer of a failed listener
     (defect D12), close would panic. -/
-example : (closeImpl ⟨[], none, [some 0, none], false⟩ {}).panicked = true := by decide
+example : (closeImpl ⟨[], [], none, [some 0, none], false⟩ {}).panicked = true := by decide
 
 /-- ★ the model meets the executable specification that judges the implementation's observations
-    (error iff some item fails, never a panic; no address still bound; no socket left) —
-    for EVERY configuration and any number of additional `close` calls. -/
-theorem startup_model_meets_spec (cfg : List Item) (n : Nat) :
+    (error iff some item fails, never a panic; no address still bound; no socket or goroutine left) —
+    for EVERY staged configuration and any number of additional `close` calls. -/
+theorem startup_model_meets_spec (cfg : List Item) (hst : staged cfg = true) (n : Nat) :
     spec cfg (obsOf (runThenClose cfg (n + 1))) = true := by
   rcases split_first_fail cfg with h | ⟨pre, it, post, rfl, hp, hi⟩
-  · have hs := shutdown_clean cfg h n
+  · have hs := shutdown_clean cfg h hst n
     simp only at hs
     obtain ⟨h1, h2, h3, _, _⟩ := hs
     have hany : cfg.any (fun it => !it.ok) = false := by
@@ -107,7 +143,7 @@ theorem startup_model_meets_spec (cfg : List Item) (n : Nat) :
       intro x hx
       simp [h x hx]
     simp [spec, obsOf, h1, h2, h3, hany]
-  · have hf := startup_failure_clean pre post it hp hi
+  · have hf := startup_failure_clean pre post it hp hi hst
     simp only at hf
     obtain ⟨h1, h2, _, h4, _⟩ := hf
     have hany : (pre ++ it :: post).any (fun it => !it.ok) = true := by
@@ -320,9 +356,9 @@ open MosVerif.Shutdown
     fail (SERVFAIL) instead of hanging or succeeding, no listening address stays bound and no socket or upstream
     connection stays open. -/
 theorem shutdown_model_meets_spec (cfg : List Startup.Item) (h : ∀ x ∈ cfg, x.ok = true)
-    (k : Close.Kind) (warm : Bool) (n : Nat) :
+    (hst : Startup.staged cfg = true) (k : Close.Kind) (warm : Bool) (n : Nat) :
     Shutdown.spec (model cfg k warm n) = true := by
-  obtain ⟨h1, h2, h3, _, _⟩ := shutdown_clean cfg h 1
+  obtain ⟨h1, h2, h3, _, _⟩ := shutdown_clean cfg h hst 1
   obtain ⟨hin, haf, hop⟩ := upstream_side k warm n
   have hall : (List.range n).all
       (fun i => resOf (Close.runScript k true (script warm n)) (i + 1) == some Close.Res.err) = true := by
@@ -377,7 +413,7 @@ theorem pins_startup :
 theorem pins_close :
     Facts.c18_dohClose = "{ if u.closer != nil { return u.closer.Close() } return nil }" ∧
     Facts.c18_fallbackClose = "{ u.u.Close() u.t.Close() return nil }" ∧
-    Facts.c18_fastHttpClose = "{ s.closed.Store(true) err := s.s.Shutdown() s.l.Close() return err }" ∧
+    Facts.c18_fastHttpClose = "{ s.closed.Store(true) ctx, cancel := context.WithTimeout(context.Background(), time.Millisecond*100) err := s.s.ShutdownWithContext(ctx) cancel() s.l.Close() s.m.Lock() for c := range s.conns { c.Close() } s.m.Unlock() if errors.Is(err, context.DeadlineExceeded) { err = nil } return err }" ∧
     Facts.c18_fastHttpShutdownInStartServer = 0 ∧
     Facts.c18_h3Closer = "addonCloser = closerFunc(func() error { quicTransport.Close(); return conn.Close() })" ∧
     Facts.c18_httpsCloser = "addonCloser = closerFunc(func() error { t1.CloseIdleConnections(); ct.close(); return nil })" ∧
@@ -416,6 +452,21 @@ theorem pins_exhaustion_and_dials :
     Facts.c18_quicDialEarly = "ec, err := t.DialEarly(ctx, ua, tlsConfig, quicConfig)" ∧
     Facts.c18_reuseDialCtx = "dialCtx, cancelDial := context.WithTimeout(t.ctx, t.dialTimeout())" ∧
     Facts.c18_quicDialCtx = "ctx, cancel := context.WithTimeout(t.ctx, t.dialTimeout())" := by
+  (repeat' apply And.intro) <;> rfl
+
+/-- The cache stage and the fasthttp listener, in the source: `initCache` closes its local cacheCtl (`c.Close()`)
+    in the error path of the redis backend — the memory cache was started just before — and of the ip marker;
+    `r.cache = cache` happens only after `initCache` returned; `cacheCtl.Close` closes both backends;
+    `fastHttpServer.Close` (pinned in `pins_close`) bounds the shutdown by 100 ms and then closes the connections
+    it tracks through the ConnState hook. -/
+theorem pins_cache_and_fasthttp :
+    Facts.c18_initCacheRedis = "if len(cfg.Redis) > 0 { redisCache, err := cache.NewRedisCache(cfg.Redis, r.subLogger(\"redis_cache\")) if err != nil { c.Close() return nil, fmt.Errorf(\"failed to init redis cache, %w\", err) } c.redis = redisCache err = regMetrics(prometheus.WrapRegistererWithPrefix(\"cache_redis\", r.metricsReg), redisCache.Collectors()...) if err != nil { c.Close() return nil, err } }" ∧
+    Facts.c18_initCacheMarker = "if len(cfg.IpMarker) > 0 { marker, err := loadIpMarkerFromFile(cfg.IpMarker) if err != nil { c.Close() return nil, fmt.Errorf(\"failed to load ip marker, %w\", err) } c.logger.Info(). Str(\"file\", cfg.IpMarker). Int(\"len\", marker.IpLen()). Int(\"marks\", marker.MarkLen()). Msg(\"ip marker file loaded\") c.ipMarker = marker }" ∧
+    Facts.c18_initCacheCloses = 4 ∧
+    Facts.c18_cacheAssign = "r.cache = cache" ∧
+    Facts.c18_cacheCtlClose = "{ if c.memory != nil { c.memory.Close() } if c.redis != nil { c.redis.Close() } return nil }" ∧
+    Facts.c18_fastHttpConnState = "s.ConnState = fs.trackConnState" ∧
+    Facts.c18_fastHttpTrack = "{ s.m.Lock() defer s.m.Unlock() switch state { case fasthttp.StateNew: s.conns[c] = struct{}{} case fasthttp.StateClosed, fasthttp.StateHijacked: delete(s.conns, c) } }" := by
   (repeat' apply And.intro) <;> rfl
 
 end MosVerif.C18
